@@ -213,10 +213,16 @@ func (e *vC01Env) read(c *singleChannelCacheImpl, s, lim int, ao bool) []*LogEnt
 	return rows
 }
 
-func TestVerif_C01_ChannelCache(t *testing.T) {
+func TestVerif_C01_ChannelCache(t *testing.T) { vC01RunCache(t, "VERIF_BEH", "VERIF_TRACE_OUT") }
+
+// The purge-race family (specs/ChannelCache: PurgeRace = TRUE): behaviours in which Remove lands between the query and the
+// prepend of a split GetChanges - the real goroutine is parked inside the stub's getChangesInChannelFromQuery meanwhile.
+func TestVerif_C01_PurgeRace(t *testing.T) { vC01RunCache(t, "VERIF_BEH_R", "VERIF_TRACE_OUT_R") }
+
+func vC01RunCache(t *testing.T, behEnv, traceEnv string) {
 	var behs []vC01Beh
-	vReadJSON(t, "VERIF_BEH", &behs)
-	tw := vOpenTrace(t, "VERIF_TRACE_OUT")
+	vReadJSON(t, behEnv, &behs)
+	tw := vOpenTrace(t, traceEnv)
 	defer tw.Close()
 	rnd := vRand()
 	ctx := base.TestCtx(t)
@@ -342,10 +348,12 @@ func TestVerif_C01_ChannelCache(t *testing.T) {
 				e.cache.pruneCacheAge(ctx)
 				emit(e.post(vObj{"a": "PruneAge", "k": st.K}))
 			case "Purge":
+				// as the purge endpoint does: note the start time, purge the document from the bucket, then tell the caches
+				startTime := time.Now()
 				e.bucket.mu.Lock()
 				delete(e.bucket.truth, st.Doc)
 				e.bucket.mu.Unlock()
-				e.cache.Remove(ctx, base.DefaultCollectionID, []string{st.Doc}, time.Now().Add(time.Hour))
+				e.cache.Remove(ctx, base.DefaultCollectionID, []string{st.Doc}, startTime)
 				emit(e.post(vObj{"a": "Purge", "doc": st.Doc}))
 			case "Recreate":
 				e.newCache(e.off + uint64(e.hcs) + 1)
